@@ -1050,7 +1050,9 @@ func (val Value) HasElement(elem Value) Value {
 	if !ty.IsSetType() {
 		panic("not a set type")
 	}
-	if !elem.IsKnown() {
+	if !elem.IsWhollyKnown() {
+		// A value containing unknown values cannot be found by lookup, but it
+		// might turn out to be equal to one of the elements.
 		return unknownResult
 	}
 	noMatchResult := False
